@@ -14,32 +14,23 @@ def hook_commits():
 
 CLAIMED = {
  "C03": dict(cat="exploration", ref="DESIGN.md section 4 (C03)",
-   text="Bounded liveness and crash freedom inside isolated simulated processes: every case (declarations with a drawn subset of env-backed options whose variables are set, a spec that is grammar-derived / nested-repetition shaped / byte-mutated / raw bytes, an argv of <= 6-8 tokens) must end in a documented outcome (positioned, printable spec error; acceptance with the Action run once; usage error with the Action not run). "
-        "Instrumented Points are the steps of simulated time; a step budget and a call-depth budget unwind a runaway process deterministically, which only nominates the case; nominated cases and cases on which the worker process dies or stalls are re-run alone in a fresh OS process with budgets lifted and a 60 s wall clock, and only that verdict is reported (replay = the tape; crash cases are shrunk by subprocess re-execution). Quick 150 k cases, thorough 12 M.",
-   note="Sampling. Trusted: the 60 s confirmation wall clock as 'does not terminate promptly' at the generator's bounds (slowest legitimate case seen finishes alone in a few seconds and is reported as a slow case, not a violation); Go runtime stack limit 256 MiB in workers.",
+   text="Bounded liveness and crash freedom inside isolated simulated processes: every case (1..5 options - or 66..90 in the many-options source - with a drawn subset backed by set environment variables whose contents are valid, empty, blank, separator-only, invalid or raw bytes; a spec that is grammar-derived / nested-repetition shaped / byte-mutated incl. truncated multi-byte characters / raw bytes; an argv of <= 6 tokens) must end in a documented outcome (positioned, printable spec error; acceptance with the Action run once; usage error with the Action not run). Instrumented Points are the steps of simulated time. Three budgets decide directly, deterministically and in-process because what they bound is polynomial in the input: > 200 000 consecutive iterations of a lexer/parser/matcher/shortcut-elimination loop (stuck-in-loop), > 1 M Points in one spec compilation, a call stack deeper than 100 000 frames (runaway-recursion). The total step budget only nominates; nominated cases and cases on which the worker process dies or stalls are re-run alone in a fresh OS process with budgets lifted, and only that verdict counts (died / hung = violation; still backtracking in the matcher when the clock runs out = known finding KF-C03-1). Quick 150 k cases, thorough 12 M.",
+   note="Sampling. Trusted: the stuck-loop / compile / depth budgets as 'does not terminate' (they bound polynomial work); the wall clock only for processes that pass no Point at all; Go runtime stack limit 256 MiB in workers. Exponential backtracking on the pinned tree is a known finding, not an alarm.",
    tech="deterministic simulation: seeded workload + environment states, step/depth budgets as simulated-time liveness bound, worker-process crash and stall detection with fresh-process confirmation"),
  "C05": dict(cat="fault_enumeration", ref="DESIGN.md section 4 (C05), Appendix B",
-   text="Every Before/Action/After on the addressed path is a simulator-owned fault point (absent / returns / panics(v) / Exit(n)) and the process-exit seam stops the simulated process at the call. "
-        "The quick tier enumerates every outcome vector for path depth 0 and 1 (64 + 1 024) and samples 60 000 seeded runs up to depth 5; the thorough tier enumerates depth 0..2 completely (17 472 vectors) and samples 3 M seeded runs "
-        "(depth, vector, panic value kinds incl. uncomparable values, exit codes, error policy, aliases, siblings, per-level tokens). Oracle: an executable reference model of the documented flow, independent of internal/flow; "
-        "exact event sequence, exit-once with the right status, panic value identity. Complete within the enumerated bounds, sampled beyond.",
+   text="Every Before/Action/After on the addressed path is a simulator-owned fault point (absent / returns / panics(v) / Exit(n)) and the process-exit seam stops the simulated process at the call. The quick tier enumerates every outcome vector for path depth 0 and 1 (64 + 1 024) and samples 150 000 seeded runs up to depth 5; the thorough tier enumerates depth 0..2 completely (17 472 vectors) and samples 20 M seeded runs (depth, vector, panic value kinds incl. uncomparable values and genuine runtime.Error values, exit statuses incl. 0, -1, 256, error policy, aliases, siblings, per-level tokens). Histories: every rerunnable tree is invoked three times on the same application object; a scheduled-pairs phase runs two cases as concurrent simulated processes under the seeded scheduler. Oracle: an executable reference model of the documented flow, independent of internal/flow; exact event sequence, exit-once with the right status, panic value identity. Complete within the enumerated bounds, sampled beyond.",
    note="Trusted: the Goexit exit seam as a model of os.Exit; the reference model (validated against the tree on all 13 104 vectors with an Action before the framework was built); Go runtime. Sampling beyond depth 2.",
    tech="deterministic simulation: seeded + exhaustive callback-fault injection with an exit seam, checked against an executable reference model of the flow"),
  "C06": dict(cat="exploration", ref="DESIGN.md section 4 (C06 and C15), Appendix B",
-   text="The environment is simulator-owned ambient state: each listed variable is unset / empty / valid / invalid / blank-padded, the command line gives the value 0..3 times, for the 7 built-in types as option and argument with zero / non-zero defaults. "
-        "A structural sweep enumerates (type, opt/arg, default, env list length and states, number of command-line values, spec shape) completely (25 200 combinations, tokens seeded) and a seeded phase draws everything (40 k quick, 3 M thorough). "
-        "Oracle: the precedence reference model whose validity and values come from strconv, read inside the Action and after Run. One known finding (KF-C06-1) is matched by a predicate on the violating case.",
+   text="The environment is simulator-owned ambient state: each listed variable is unset / empty / valid / invalid / blank-padded (name lists separated by any white space), sometimes changed between the declarations and Run; the command line gives the value 0..3 times, for the 7 built-in types as option and argument, declared through the struct, Ptr (optionally pre-populated variable) and convenience forms, with zero / non-zero defaults. A structural sweep enumerates (type, opt/arg, default, env list length and states, number of command-line values, spec shape) completely (25 200 combinations, tokens seeded); seeded, scheduled-pairs and multi-container phases (2..5 options listed individually / OPTIONS / folded group, folded command lines, two list options sharing one default slice object) draw everything. History: the same application object parses a second command line. Oracle: the precedence reference model whose validity and values come from strconv, read inside the Action and after Run. One known finding (KF-C06-1) is matched by a predicate on the violating case.",
    note="Trusted: strconv as the definition of validity; the model. Cases that the library rejects are skipped (acceptance is C12/C13's subject) - the evidence counts them (0 on the pinned tree).",
    tech="deterministic simulation: environment-state fault injection (unset/empty/invalid/padded) against an executable precedence model"),
  "C07": dict(cat="exploration", ref="DESIGN.md section 4 (C07 and C14)",
-   text="Command trees (depth 0..4) with recording callbacks on every level; an invocation valid by construction is left valid or rejected by one cause at one level (missing / surplus positional, undeclared option, int / bool conversion failure, injected Set error on a custom value at its k-th call); "
-        "the error stream follows a fault plan (healthy / closed / fail after N bytes / short writes); every case is executed under all three error policies and the process end is observed through the exit seam (return / exit 2 once / panic with the error). "
-        "Oracle: nothing runs, error text and usage of the rejecting command on a healthy stream, policy-exact end, transcript identical across policies; accepted invocations run the path and return nil. 40 k cases quick, 4 M thorough.",
+   text="Command trees (depth 0..4, sessions up to 6; odd but legal names; sub-commands whose initializer sets its own error policy) with recording callbacks on every level; an invocation valid by construction is left valid or rejected by one cause at one level (missing / surplus positional, undeclared option incl. number-like ones, int / bool conversion failure, injected Set error on a custom value at its k-th call); the error stream follows a fault plan (healthy / closed / fail after N bytes / short writes); every case is executed under all three application policies and the process end is observed through the exit seam against the rejecting command's effective policy (return / exit 2 once / panic with the error). Phases: seeded; scheduled pairs (two cases as concurrent simulated processes); sessions (one application object, 2..3 different command lines). Oracle: nothing runs, error text and usage of the rejecting command on a healthy stream, policy-exact end, transcript identical across policies; accepted invocations run the path and return nil.",
    note="Sampling. The level templates have a language known by construction (no second parser). Stream content clauses only under a healthy stream.",
    tech="deterministic simulation: rejection and Set-error injection x stream fault plans x error policies, process end observed at an exit seam"),
  "C12": dict(cat="exploration", ref="DESIGN.md section 4 (C12)",
-   text="Relation between two simulated worlds that differ only in environment content: world A has every owned variable unset, world B sets a valid value for a drawn non-empty subset of the env-backed options. Same application (declarations + grammar-derived spec) and command line (walk of the spec, folded / mutated) in both. "
-        "Oracle: accepted in A => accepted in B, identical values for options written on the command line (specs without `--`); directed modes: an option occurring once is removed from the command line and left to the environment (must be accepted), an env-backed option given 2..4 times under -x..., [-x]..., [OPTIONS]. 60 k cases quick, 4 M thorough. Known finding KF-C12-1 matched by predicate.",
+   text="Relation between two simulated worlds that differ only in environment content: world A has every owned variable unset, world B sets a valid value for a drawn non-empty subset of the env-backed options (and sometimes removes or spoils it again after the declarations, which must not matter). Same application (declarations + grammar-derived spec) and command line (walk of the spec, folded / mutated) in both. Oracle: accepted in A => accepted in B, identical values for options written on the command line (specs without `--`); directed modes: an option occurring once is removed from the command line and left to the environment (must be accepted), an env-backed option given 2..4 times under -x..., [-x]..., [OPTIONS]. Seven cases in eight use flags / strings / string lists only (no conversion can fail); the rest keep typed containers, where known finding KF-C12-1 is observed and matched by predicate. 60 k cases quick, 8 M thorough.",
    note="Sampling. A world-B run that exceeds the step budget is re-run with a 100x budget before it counts as not accepted; exceeding the depth budget counts as not accepted.",
    tech="deterministic simulation: two-world metamorphic relation over environment content with seeded specs and command lines"),
  "C13": dict(cat="exploration", ref="DESIGN.md section 4 (C13) - weak fit, stated",
@@ -48,22 +39,19 @@ CLAIMED = {
    note="Sampling. strconv is the reference. Environment list delivery uses an empty default so that KF-C06-1 (C06's subject) is not observed here.",
    tech="deterministic simulation (weak fit): token delivery through command-line spellings and the simulated environment, strconv as reference model"),
  "C14": dict(cat="exploration", ref="DESIGN.md section 4 (C07 and C14) - weak fit, stated",
-   text="Same world as C07: a help token inserted at a drawn position of a drawn level (optionally with another level made invalid on purpose: ancestors and the level itself must not be validated), a help token after the level's own `--` (ordinary data, bound verbatim), or a declared version flag in first position; stream fault plans; all three policies. "
-        "Oracle: nothing runs, `Usage: <addressed path>` and the long description on a healthy stream, exit 0 once under ExitOnError and return nil otherwise. 40 k cases quick, 4 M thorough.",
+   text="Same world as C07: a help token inserted at a drawn position of a drawn level (optionally with another level made invalid on purpose: ancestors and the level itself must not be validated), a help token after the level's own `--` (ordinary data, bound verbatim), or a declared version flag in first position; stream fault plans; all three application policies, the expected end following the addressed command's effective policy; seeded, scheduled-pairs and session phases (one application object asked for help at different levels of a tree up to depth 6). Oracle: nothing runs, `Usage: <addressed path>` (names may contain %, dots, non-ASCII) and the long description on a healthy stream, exit 0 once under ExitOnError and return nil otherwise.",
    note="Sampling. Not generated (excluded by the property): help below an ancestor whose own arguments contain `--`.",
    tech="deterministic simulation: help/version short-circuit observed at the exit seam under stream fault plans and all error policies"),
  "C15": dict(cat="exploration", ref="DESIGN.md section 4 (C06 and C15)",
-   text="Same world and sweep as C06 (25 200 structural combinations + seeded phase); the SetByUser pointer is always supplied and read inside the Action and after Run. Oracle: SetByUser == (the command line supplied at least one value), whatever the environment states and default.",
+   text="Same worlds, sweep, histories and phases as C06 (25 200 structural combinations + seeded + scheduled pairs with a yielding custom value + multi-container + environment changed after the declarations); the SetByUser pointer is supplied wherever the declaration form has one and read inside the Action and after Run. Oracle: SetByUser == (the command line supplied at least one value), whatever the environment states, their timing and the default.",
    note="Sampling beyond the structural sweep; cases the library rejects are skipped and counted.",
    tech="deterministic simulation: environment-state fault injection, SetByUser checked against command-line presence"),
  "C19": dict(cat="exploration", ref="DESIGN.md section 4 (C19), Appendix B",
-   text="The user-supplied flag.Value is a simulator-owned probe: one Go type per subset of {IsBoolFlag, Clear, IsDefault} (plus IsBoolFlag()==false), every call logged, Set failing on a drawn call (never / k-th call of the Run phase / during declaration); as option and argument in template specs, with environment list states and 0..3 command-line tokens in every spelling (bare, folded, =value, separate, attached), optionally with a second probe container. "
-        "Oracle over the Run-phase call history: Clear exactly once iff present and before any Set, then Set of exactly the bound tokens in order, nothing when no token is bound; a Set error => usage error, Action not run, no further Set. Structural sweep (2 048 combinations) + 50 k seeded quick / 3 M thorough.",
+   text="The user-supplied flag.Value is a simulator-owned probe: one Go type per subset of {IsBoolFlag, Clear, IsDefault} (plus IsBoolFlag()==false), every call logged, Set failing on a drawn call (never / k-th call of the Run phase / during declaration) with one of seven error values (flag.ErrHelp, wrapped, io.EOF, empty text, texts equal to the library's own messages ...); as option and argument in template specs, declared through VarOpt/VarArg structs or convenience methods, with environment list states and 0..3 command-line tokens in every spelling (bare, folded, =value incl. ParseBool spellings, separate, attached, `--` as an operand), optionally with a second probe container; a scheduled-pairs phase makes Set a scheduling point. Oracle over the Run-phase call history: Clear exactly once iff present and before any Set, then Set of exactly the bound tokens in order, nothing when no token is bound; a Set error => usage error, Action not run, no further Set.",
    note="Sampling beyond the sweep. Non-mutating calls (String, IsBoolFlag, IsDefault) are ignored wherever they occur; after a failing Set the other container's history only has to be a prefix of its protocol (map iteration order).",
    tech="deterministic simulation: instrumented user value types with injected Set failures, call-history oracle"),
  "C20": dict(cat="exploration", ref="DESIGN.md section 4 (C20), 3.5, 3.11",
-   text="N = 2..6 independent applications drawn from all the other generators are run alone (twice) and then together as simulated processes under a cooperative scheduler that parks every process at each instrumented Point, callback and stream write and draws every switch from the tape (uniform / PCT-like / coarse / serial-order strategies): each application's outcome together (end, exit code, panic identity, events, bound values, SetByUser, probe call logs, stderr transcript) must equal its solo outcome, and rebuilding and rerunning must give the same acceptance and values. "
-        "Also: environment mutated between declaration and Run must not matter; a sample of solo outcomes is cross-checked against a fresh OS process; and a race-detector stage runs the same worlds on real parallel goroutines (-race, GOMAXPROCS 16). Quick 6 k scheduled worlds + 800 race-mode worlds; thorough 400 k + 60 k.",
+   text="N = 2..6 independent applications drawn from all the other generators (plus twins sharing spec string and names but not types, and siblings sharing declarations - hence the host program's default slice objects - with another command line) are run alone (twice, each from pristine user-program state) and then together as simulated processes under a cooperative scheduler that parks every process at each instrumented Point, callback and stream write and draws every switch from the tape (uniform / PCT-like / coarse / serial-order strategies): each application's outcome together (end, exit code, panic identity, events, bound values, SetByUser, probe call logs, stderr transcript) must equal its solo outcome, and rebuilding and rerunning must give the same acceptance and values. Also: environment mutated between declaration and Run must not matter; for one world in eight every application is run alone in its own fresh OS process and all of them one after another in one more (order histories that replay); and a race-detector stage runs the same worlds on real parallel goroutines (-race, GOMAXPROCS 16). Quick 6 k scheduled worlds + 800 race-mode worlds; thorough 400 k + 60 k.",
    note="Sampling of schedules. The race-detector stage is not schedule-controlled (which interleaving occurs is up to the Go scheduler); it is sound because the detector reports only real races, and its replay re-runs the same world up to 5 x 400 times. Map iteration order is contained, not controlled: fields that depend on it (error text of a failing Set when several containers are filled) are excluded from the comparison.",
    tech="deterministic simulation: cooperative seeded scheduler over instrumented Points (non-interference vs solo runs) + race detector on free-running goroutines"),
 }
